@@ -342,6 +342,8 @@ class Program:
         self.gen = Gen(rng, self.world, {"p_comp": 0.75})
         r = rng.random()
         self.n = rng.randint(1, 6) if r < 0.5 else rng.randint(5, 14) if r < 0.9 else rng.randint(15, 40)
+        if tier == "thorough" and rng.random() < 0.2:
+            self.n = rng.randint(60, 150)  # thorough tier: some very long histories
 
     def source(self, i, sess):
         if i >= self.n:
